@@ -86,6 +86,8 @@ func (s *Sys) WithFastPath() *Sys {
 	c := *s
 	c.FastPath = true
 	c.fpProbes = fpBattery(s.NClients)
+	// a configuration reload that offers a pool under an id already in use (rejected by the pool manager)
+	c.events = append(append([]core.Event{}, s.events...), core.Event{"op": "DUPPOOL", "c": 0, "u": -1})
 	return &c
 }
 func (s *Sys) Config() map[string]any {
@@ -157,6 +159,7 @@ type inst struct {
 	s         *Sys
 	srv       *dhcp.Server
 	pool      *dhcp.Pool
+	pm        *dhcp.PoolManager
 	conn      *capConn
 	lastOffer map[int]int // client -> unit of the last OFFER
 	lastAck   map[int]int // client -> unit of the last ACK still believed held
@@ -178,7 +181,7 @@ func (s *Sys) New() core.Instance {
 		panic(err)
 	}
 	pm := dhcp.NewPoolManager(loader, logger)
-	p, err := dhcp.NewPool(dhcp.PoolConfig{ID: 1, Name: "p", Network: s.CIDR, Gateway: s.unitIP(1).String(), DNSServers: []string{"9.9.9.9"}, LeaseTime: leaseTime})
+	p, err := dhcp.NewPool(dhcp.PoolConfig{ID: 1, Name: "p", Network: s.CIDR, Gateway: s.unitIP(1).String(), DNSServers: []string{"9.9.9.9", "149.112.112.112"}, LeaseTime: leaseTime})
 	if err != nil {
 		panic(err)
 	}
@@ -198,7 +201,7 @@ func (s *Sys) New() core.Instance {
 			panic(err)
 		}
 	}
-	return &inst{fp: fp, s: s, srv: srv, pool: p, conn: &capConn{}, lastOffer: map[int]int{}, lastAck: map[int]int{}, start: time.Now(), offAge: map[string]int{}, decl: map[string]bool{}, ackAlt: map[int]bool{}}
+	return &inst{fp: fp, s: s, srv: srv, pool: p, pm: pm, conn: &capConn{}, lastOffer: map[int]int{}, lastAck: map[int]int{}, start: time.Now(), offAge: map[string]int{}, decl: map[string]bool{}, ackAlt: map[int]bool{}}
 }
 
 func (in *inst) build(c int, alt bool, mt dhcpv4.MessageType, reqIP net.IP, ciaddr net.IP) *dhcpv4.DHCPv4 {
@@ -338,6 +341,15 @@ func (in *inst) Apply(ev core.Event) map[string]any {
 		return out("none", -1, -1, false)
 	case "CLEAN":
 		in.srv.VerifCleanupExpired()
+		return out("none", -1, -1, false)
+	case "DUPPOOL":
+		dup, err := dhcp.NewPool(dhcp.PoolConfig{ID: 1, Name: "dup", Network: s.CIDR, Gateway: s.unitIP(s.NUnits - 2).String(), DNSServers: []string{"1.1.1.1"}, LeaseTime: 10 * time.Minute})
+		if err != nil {
+			panic(err)
+		}
+		if in.pm.AddPool(dup) == nil {
+			panic("a second pool with id 1 was accepted")
+		}
 		return out("none", -1, -1, false)
 	}
 	panic("unknown op " + op)
